@@ -300,6 +300,7 @@ LIBRARY = [
     (b'C\n', [2], b''),              # relative header that exists at the root and below A
     (b'A:C;Q\n', [1], b''),          # command form of a query-only node below A
     (b'S "a\'b"\n', [9], b''),
+    (b'A:B;S "x\ny"\n', [0, 10], b''),   # a message that is continued by a later read (newline inside the string), path A kept meanwhile
 ]
 
 
